@@ -4,8 +4,9 @@
    [Inv n0 H st E]: the concrete state st (environment + heap of the abstract heap
    semantics) is described by the checker's abstract environment E and abstract heap
    H, where n0 is the allocation pointer at entry of the analysed function (locations
-   below n0 existed before the call).  Part 2 (EffectsSound2.v) proves preservation
-   by statements and the theorem [safe_sound]. *)
+   below n0 existed before the call), R the regions of the parameters at entry and b0
+   the buffer owners at entry.  Part 2 (EffectsSound2.v) proves preservation by
+   statements and the theorems [analyse_sound], [safe_sound]. *)
 From Coq Require Import List NArith PArith Bool String Lia Arith FSets.FSetPositive SetoidList.
 Require Import EoNV.Model.Effects EoNV.Proofs.EffectsP.
 Import ListNotations.
@@ -80,18 +81,6 @@ Lemma hp_look_match : forall h s f g a,
   fmatch f g = true -> PS.In a (hp_look h s g) -> PS.In a (hp_match h s f).
 Proof. intros h s f g a. unfold hp_look, hp_match. apply fm_look_match. Qed.
 
-(* --------------------------------------------------------------- taint sets *)
-Lemma taint_nonempty : forall H s a, PS.In a s -> taint1 H a <> [] -> taint H s <> [].
-Proof.
-  intros H s a Ha Hne Ht. apply Hne.
-  apply (taint_nil_in H (aelems s)); [exact Ht|apply in_aelems; exact Ha].
-Qed.
-
-Lemma nsubset_nonempty : forall l m, nsubset l m = true -> l <> [] -> m <> [].
-Proof.
-  intros l m Hs Hl Hm. subst m. destruct l as [|a l]; [apply Hl; reflexivity|].
-  cbn in Hs. discriminate Hs.
-Qed.
 
 (* ------------------------------------------- order and join of environments *)
 Definition aleq (E F : aenv) : Prop := forall x a, PS.In a (alook E x) -> PS.In a (alook F x).
@@ -151,15 +140,18 @@ Lemma aenv_join_r : forall E F, aleq F (aenv_join E F).
 Proof. intros E F x a Ha. apply aenv_join_sound. right. exact Ha. Qed.
 
 (* ------------------------------------------------------------ the invariant *)
-(* every reference of the concrete heap is between existing objects; objects that
-   existed before the call only hold objects that existed before the call; the
-   references held by an object created during the call are recorded in the abstract
-   heap under the object's allocation site and the field they are stored under *)
-Definition inv_heap (n0 : loc) (H : aheap) (h : heap) : Prop :=
+(* every reference of the concrete heap is between existing objects; an object that
+   existed before the call holds objects that existed before and lie in every region
+   it lies in itself, or objects that a write of the function may have stored into a
+   pre-existing object ([po H]); the references held by an object created during the
+   call are recorded in the abstract heap under the object's allocation site and the
+   field they are stored under *)
+Definition inv_heap (n0 : loc) (R : region) (H : aheap) (h : heap) : Prop :=
   forall l g k, kids h l g k ->
     ((l < next h)%nat /\ (k < next h)%nat) /\
-    ((l < n0)%nat -> (k < n0)%nat) /\
-    ((n0 <= l)%nat -> exists a, PS.In a (hp_look (hp H) (site_of h l) g) /\ gamma n0 h a k).
+    ((l < n0)%nat -> ((k < n0)%nat /\ forall q, R q l -> R q k) \/
+                     exists a, PS.In a (po H) /\ gamma n0 R h a k) /\
+    ((n0 <= l)%nat -> exists a, PS.In a (hp_look (hp H) (site_of h l) g) /\ gamma n0 R h a k).
 
 (* h' extends h: nothing is deallocated and no object changes its allocation site *)
 Definition ext (h h' : heap) : Prop :=
@@ -173,46 +165,48 @@ Proof.
   intros m Hm. rewrite Hs2 by lia. apply Hs1. exact Hm.
 Qed.
 
-Lemma gamma_ext : forall n0 h h' a l,
-  ext h h' -> (l < next h)%nat -> gamma n0 h a l -> gamma n0 h' a l.
+Lemma gamma_ext : forall n0 R h h' a l,
+  ext h h' -> (l < next h)%nat -> gamma n0 R h a l -> gamma n0 R h' a l.
 Proof.
-  intros n0 h h' a l [Hn Hs] Hl Hg. destruct a as [p|p|]; cbn [gamma] in *.
+  intros n0 R h h' a l [Hn Hs] Hl Hg. destruct a as [p|p|]; cbn [gamma] in *.
   - exact Hg.
   - destruct Hg as [Hge Hsite]. split; [exact Hge|]. rewrite Hs by exact Hl. exact Hsite.
   - exact Hg.
 Qed.
 
-Lemma inv_env_ext : forall n0 h h' e E, ext h h' -> inv_env n0 h e E -> inv_env n0 h' e E.
+Lemma inv_env_ext : forall n0 R h h' e E, ext h h' -> inv_env n0 R h e E -> inv_env n0 R h' e E.
 Proof.
-  intros n0 h h' e E Hext Hi x l Hx. destruct (Hi x l Hx) as [Hlt [a [Hin Hg]]].
-  split; [destruct Hext; lia|]. exists a. split; [exact Hin|exact (gamma_ext n0 h h' a l Hext Hlt Hg)].
+  intros n0 R h h' e E Hext Hi x l Hx. destruct (Hi x l Hx) as [Hlt [a [Hin Hg]]].
+  split; [destruct Hext; lia|]. exists a. split; [exact Hin|exact (gamma_ext n0 R h h' a l Hext Hlt Hg)].
 Qed.
 
-Lemma inv_env_aleq : forall n0 h e E F, aleq E F -> inv_env n0 h e E -> inv_env n0 h e F.
+Lemma inv_env_aleq : forall n0 R h e E F, aleq E F -> inv_env n0 R h e E -> inv_env n0 R h e F.
 Proof.
-  intros n0 h e E F Hl Hi x l Hx. destruct (Hi x l Hx) as [Hlt [a [Hin Hg]]].
+  intros n0 R h e E F Hl Hi x l Hx. destruct (Hi x l Hx) as [Hlt [a [Hin Hg]]].
   split; [exact Hlt|]. exists a. split; [exact (Hl x a Hin)|exact Hg].
 Qed.
 
-Lemma inv_env_upd : forall n0 h e E x l v a,
-  inv_env n0 h e E -> (l < next h)%nat -> PS.In a v -> gamma n0 h a l ->
-  inv_env n0 h (upd e x (Some l)) (aset E x v).
+Lemma inv_env_upd : forall n0 R h e E x l v a,
+  inv_env n0 R h e E -> (l < next h)%nat -> PS.In a v -> gamma n0 R h a l ->
+  inv_env n0 R h (upd e x (Some l)) (aset E x v).
 Proof.
-  intros n0 h e E x l v a Hi Hl Ha Hg z m Hz. unfold upd in Hz. rewrite alook_aset.
+  intros n0 R h e E x l v a Hi Hl Ha Hg z m Hz. unfold upd in Hz. rewrite alook_aset.
   rewrite (N.eqb_sym x z). destruct (z =? x).
   - injection Hz as <-. split; [exact Hl|]. exists a. split; [exact Ha|exact Hg].
   - exact (Hi z m Hz).
 Qed.
 
 (* -------------------------------------------------- one reference, abstractly *)
-Lemma kids_sound : forall n0 H h l0 g l a0 f,
-  inv_heap n0 H h -> kids h l0 g l -> gamma n0 h a0 l0 -> fmatch f g = true ->
-  (l < next h)%nat /\ exists a, PS.In a (hpts H f a0) /\ gamma n0 h a l.
+Lemma kids_sound : forall n0 R H h l0 g l a0 f,
+  inv_heap n0 R H h -> kids h l0 g l -> gamma n0 R h a0 l0 -> fmatch f g = true ->
+  (l < next h)%nat /\ exists a, PS.In a (hpts H f a0) /\ gamma n0 R h a l.
 Proof.
-  intros n0 H h l0 g l a0 f Hh Hk Hg Hm.
+  intros n0 R H h l0 g l a0 f Hh Hk Hg Hm.
   destruct (Hh l0 g l Hk) as [[_ Hlt] [Hold Hnew]]. split; [exact Hlt|].
   destruct a0 as [p|p|]; cbn [gamma hpts] in *.
-  - exists (xI p). split; [apply asingle_in|]. cbn [gamma]. exact (Hold Hg).
+  - destruct Hg as [Hl0 Hr]. destruct (Hold Hl0) as [[Hlo Hcl]|[a [Ha Hga]]].
+    + exists (xI p). split; [apply aunion_l; apply asingle_in|]. cbn [gamma]. split; [exact Hlo|exact (Hcl _ Hr)].
+    + exists a. split; [apply aunion_r; exact Ha|exact Hga].
   - destruct Hg as [Hge Hs]. destruct (Hnew Hge) as [a [Ha Hga]]. exists a. split; [|exact Hga].
     rewrite Hs in Ha. exact (hp_look_match _ _ f g a Hm Ha).
   - destruct Hg.
@@ -221,15 +215,15 @@ Qed.
 Lemma fmatch_0 : forall g, fmatch 0 g = true.
 Proof. intros g. reflexivity. Qed.
 
-Lemma reach_sound : forall n0 H h r l0 l,
-  inv_heap n0 H h -> aclosed H r = true -> reach h l0 l ->
-  forall a0, PS.In a0 r -> gamma n0 h a0 l0 -> (l0 < next h)%nat ->
-  (l < next h)%nat /\ exists a, PS.In a r /\ gamma n0 h a l.
+Lemma reach_sound : forall n0 R H h r l0 l,
+  inv_heap n0 R H h -> aclosed H r = true -> reach h l0 l ->
+  forall a0, PS.In a0 r -> gamma n0 R h a0 l0 -> (l0 < next h)%nat ->
+  (l < next h)%nat /\ exists a, PS.In a r /\ gamma n0 R h a l.
 Proof.
-  intros n0 H h r l0 l Hh Hc Hr. induction Hr as [l0|l0 k g m Hr IH Hk]; intros a0 Ha0 Hg0 Hl0.
+  intros n0 R H h r l0 l Hh Hc Hr. induction Hr as [l0|l0 k g m Hr IH Hk]; intros a0 Ha0 Hg0 Hl0.
   - split; [exact Hl0|]. exists a0. split; assumption.
   - destruct (IH a0 Ha0 Hg0 Hl0) as [Hkn [ak [Hak Hgk]]].
-    destruct (kids_sound n0 H h k g m ak 0 Hh Hk Hgk (fmatch_0 g)) as [Hm [a [Ha Hga]]].
+    destruct (kids_sound n0 R H h k g m ak 0 Hh Hk Hgk (fmatch_0 g)) as [Hm [a [Ha Hga]]].
     split; [exact Hm|]. exists a. split; [|exact Hga].
     unfold aclosed in Hc. pose proof (forallb_aelems _ r ak Hc Hak) as Hsub. cbn beta in Hsub.
     exact (asubset_in _ _ a Hsub Ha).
@@ -243,55 +237,56 @@ Proof.
   injection Hr as <-. split; assumption.
 Qed.
 
-Lemma reach_vars_sound : forall n0 H h e E ys r y l0 l,
-  inv_env n0 h e E -> inv_heap n0 H h -> areach H (alooks E ys) = Some r ->
+Lemma reach_vars_sound : forall n0 R H h e E ys r y l0 l,
+  inv_env n0 R h e E -> inv_heap n0 R H h -> areach H (alooks E ys) = Some r ->
   In y ys -> e y = Some l0 -> reach h l0 l ->
-  (l < next h)%nat /\ exists a, PS.In a r /\ gamma n0 h a l.
+  (l < next h)%nat /\ exists a, PS.In a r /\ gamma n0 R h a l.
 Proof.
-  intros n0 H h e E ys r y l0 l He Hh Hr Hy Hey Hre.
+  intros n0 R H h e E ys r y l0 l He Hh Hr Hy Hey Hre.
   destruct (areach_spec _ _ _ Hr) as [Hc Hs].
   destruct (He y l0 Hey) as [Hl0 [a0 [Ha0 Hg0]]].
-  apply (reach_sound n0 H h r l0 l Hh Hc Hre a0); [|exact Hg0|exact Hl0].
+  apply (reach_sound n0 R H h r l0 l Hh Hc Hre a0); [|exact Hg0|exact Hl0].
   apply (asubset_in _ _ a0 Hs). exact (alooks_in E ys y a0 Hy Ha0).
 Qed.
 
 (* ------------------------------------------------------------- expressions *)
-(* a described location whose buffer existed before the call has a non-empty taint *)
-
-Lemma taint1_view : forall n0 H h a l,
-  inv_bt n0 H h -> (l < next h)%nat -> gamma n0 h a l -> (base h l < n0)%nat -> taint1 H a <> [].
+(* a described location whose buffer existed before the call: the buffer lies in the
+   region of a parameter in the taint of the abstract value *)
+Lemma taint1_view : forall n0 R b0 H h a l,
+  inv_bt n0 R b0 H h -> inv_base n0 b0 h -> (l < next h)%nat -> gamma n0 R h a l -> (base h l < n0)%nat ->
+  exists q l', In q (taint1 H a) /\ R q l' /\ base h l = b0 l'.
 Proof.
-  intros n0 H h a l Hbt Hl Hg Hb. destruct a as [p|p|]; cbn [gamma taint1] in *.
-  - discriminate.
+  intros n0 R b0 H h a l Hbt Hb0 Hl Hg Hb. destruct a as [p|p|]; cbn [gamma taint1] in *.
+  - destruct Hg as [Hold Hr]. exists (Pos.pred_N p), l. split; [left; reflexivity|]. split; [exact Hr|exact (Hb0 l Hold)].
   - destruct Hg as [Hge Hs]. rewrite <- Hs. exact (Hbt l Hge Hl Hb).
   - destruct Hg.
 Qed.
 
-Lemma eval_sound : forall n0 H h e E ex h' l,
+Lemma eval_sound : forall n0 R b0 H h e E ex h' l,
   eval h e ex h' l -> forall v, eval_expr H E ex = Some v ->
-  inv_env n0 h e E -> inv_heap n0 H h -> inv_bt n0 H h -> (n0 <= next h)%nat ->
-  ext h h' /\ inv_heap n0 H h' /\ inv_bt n0 H h' /\ (l < next h')%nat /\
-  exists a, PS.In a v /\ gamma n0 h' a l.
+  inv_env n0 R h e E -> inv_heap n0 R H h -> inv_bt n0 R b0 H h -> inv_base n0 b0 h -> (n0 <= next h)%nat ->
+  ext h h' /\ inv_heap n0 R H h' /\ inv_bt n0 R b0 H h' /\ inv_base n0 b0 h' /\ (l < next h')%nat /\
+  exists a, PS.In a v /\ gamma n0 R h' a l.
 Proof.
-  intros n0 H h e E ex h' l Hev.
+  intros n0 R b0 H h e E ex h' l Hev.
   induction Hev as [y l Hy|y f l0 g l Hy Hk Hm|ys y l0 l Hin Hy Hr
                     |s cf sh cp dp vw h' l Hal Hbase Hkids|a b h' l Hev IH|a b h' l Hev IH];
-    intros v Hv He Hh Hbt Hn0.
+    intros v Hv He Hh Hbt Hb0 Hn0.
   - (* EVar *)
     cbn [eval_expr] in Hv. injection Hv as <-.
     destruct (He y l Hy) as [Hl [a [Ha Hg]]].
-    split; [apply ext_refl|]. split; [exact Hh|]. split; [exact Hbt|]. split; [exact Hl|].
+    split; [apply ext_refl|]. split; [exact Hh|]. split; [exact Hbt|]. split; [exact Hb0|]. split; [exact Hl|].
     exists a. split; assumption.
   - (* ELoad *)
     cbn [eval_expr] in Hv. injection Hv as <-.
     destruct (He y l0 Hy) as [Hl0 [a0 [Ha0 Hg0]]].
-    destruct (kids_sound n0 H h l0 g l a0 f Hh Hk Hg0 Hm) as [Hl [a [Ha Hg]]].
-    split; [apply ext_refl|]. split; [exact Hh|]. split; [exact Hbt|]. split; [exact Hl|].
+    destruct (kids_sound n0 R H h l0 g l a0 f Hh Hk Hg0 Hm) as [Hl [a [Ha Hg]]].
+    split; [apply ext_refl|]. split; [exact Hh|]. split; [exact Hbt|]. split; [exact Hb0|]. split; [exact Hl|].
     exists a. split; [|exact Hg]. exact (aload_in H f _ a a0 Ha0 Ha).
   - (* EReach *)
     cbn [eval_expr] in Hv.
-    destruct (reach_vars_sound n0 H h e E ys v y l0 l He Hh Hv Hin Hy Hr) as [Hl [a [Ha Hg]]].
-    split; [apply ext_refl|]. split; [exact Hh|]. split; [exact Hbt|]. split; [exact Hl|].
+    destruct (reach_vars_sound n0 R H h e E ys v y l0 l He Hh Hv Hin Hy Hr) as [Hl [a [Ha Hg]]].
+    split; [apply ext_refl|]. split; [exact Hh|]. split; [exact Hbt|]. split; [exact Hb0|]. split; [exact Hl|].
     exists a. split; assumption.
   - (* EAlloc *)
     cbn [eval_expr] in Hv.
@@ -304,40 +299,46 @@ Proof.
     assert (Hext : ext h h').
     { split; [lia|]. intros m Hm. apply Hsites. lia. }
     assert (Hge : (n0 <= l)%nat) by lia.
-    split; [exact Hext|]. split; [|split; [|split]].
+    split; [exact Hext|]. split; [|split; [|split; [|split]]].
     + (* inv_heap *)
       intros m g k Hk. destruct (Nat.eq_dec m l) as [->|Hml].
       * destruct (Hkids g k Hk) as [-> Hsrc].
-        assert (Hdesc : (k < next h)%nat /\ exists a, PS.In a need /\ gamma n0 h a k).
+        assert (Hdesc : (k < next h)%nat /\ exists a, PS.In a need /\ gamma n0 R h a k).
         { destruct Hsrc as [[z [Hz Hez]]|[[z [lz [g' [Hz [Hez [Hkz Hfm]]]]]]|[z [lz [Hz [Hez Hre]]]]]].
           - destruct (He z k Hez) as [Hkn [a [Ha Hg]]]. split; [exact Hkn|]. exists a. split; [|exact Hg].
             apply aunion_l. exact (alooks_in E sh z a Hz Ha).
           - destruct (He z lz Hez) as [Hlz [a0 [Ha0 Hg0]]].
-            destruct (kids_sound n0 H h lz g' k a0 cf Hh Hkz Hg0 Hfm) as [Hkn [a [Ha Hg]]].
+            destruct (kids_sound n0 R H h lz g' k a0 cf Hh Hkz Hg0 Hfm) as [Hkn [a [Ha Hg]]].
             split; [exact Hkn|]. exists a. split; [|exact Hg].
             apply aunion_r. apply aunion_l. apply (aload_in H cf _ a a0); [|exact Ha].
             exact (alooks_in E cp z a0 Hz Ha0).
-          - destruct (reach_vars_sound n0 H h e E dp rd z lz k He Hh Hrd Hz Hez Hre) as [Hkn [a [Ha Hg]]].
+          - destruct (reach_vars_sound n0 R H h e E dp rd z lz k He Hh Hrd Hz Hez Hre) as [Hkn [a [Ha Hg]]].
             split; [exact Hkn|]. exists a. split; [|exact Hg].
             apply aunion_r. apply aunion_r. exact Ha. }
         destruct Hdesc as [Hkn [a [Ha Hg]]].
         split; [lia|]. split; [intros Hlt; lia|]. intros _. exists a. split.
         -- rewrite Hsite. exact (asubset_in _ _ a Hneed Ha).
-        -- exact (gamma_ext n0 h h' a k Hext Hkn Hg).
+        -- exact (gamma_ext n0 R h h' a k Hext Hkn Hg).
       * apply Hkeep in Hk; [|exact Hml]. destruct (Hh m g k Hk) as [[Hm Hkn] [Hold Hnew]].
-        split; [lia|]. split; [exact Hold|]. intros Hgem. destruct (Hnew Hgem) as [a [Ha Hg]].
-        exists a. split.
-        -- rewrite Hsites by exact Hml. exact Ha.
-        -- exact (gamma_ext n0 h h' a k Hext Hkn Hg).
+        split; [lia|]. split.
+        -- intros Hlt. destruct (Hold Hlt) as [Hcl|[a [Ha Hg]]]; [left; exact Hcl|right].
+           exists a. split; [exact Ha|exact (gamma_ext n0 R h h' a k Hext Hkn Hg)].
+        -- intros Hgem. destruct (Hnew Hgem) as [a [Ha Hg]].
+           exists a. split.
+           ++ rewrite Hsites by exact Hml. exact Ha.
+           ++ exact (gamma_ext n0 R h h' a k Hext Hkn Hg).
     + (* inv_bt *)
       intros m Hgem Hm Hb. destruct (Nat.eq_dec m l) as [->|Hml].
       * rewrite Hsite. destruct Hbase as [Hown|[z [lz [Hz [Hez Hbz]]]]]; [lia|].
-        rewrite Hbz in Hb. destruct (He z lz Hez) as [Hlz [a [Ha Hg]]].
-        apply (nsubset_nonempty _ _ Htaint).
-        apply (taint_nonempty H _ a (alooks_in E vw z a Hz Ha)).
-        exact (taint1_view n0 H h a lz Hbt Hlz Hg Hb).
-      * rewrite Hsites by exact Hml. rewrite Hbases in Hb by exact Hml.
+        rewrite Hbz in Hb. rewrite Hbz. destruct (He z lz Hez) as [Hlz [a [Ha Hg]]].
+        destruct (taint1_view n0 R b0 H h a lz Hbt Hb0 Hlz Hg Hb) as [q [l' [Hq [Hr Hbl]]]].
+        exists q, l'. split; [|split; assumption].
+        apply (nsubset_In _ _ q Htaint).
+        exact (taint_in H _ a q (alooks_in E vw z a Hz Ha) Hq).
+      * rewrite Hsites by exact Hml. rewrite Hbases in Hb by exact Hml. rewrite Hbases by exact Hml.
         apply (Hbt m Hgem); [lia|exact Hb].
+    + (* inv_base *)
+      intros m Hm. rewrite Hbases by lia. exact (Hb0 m Hm).
     + lia.
     + exists (ASite s). split; [apply asingle_in|]. cbn [gamma ASite]. split; [exact Hge|].
       rewrite Hsite. symmetry. apply N.pos_pred_succ.
@@ -345,14 +346,14 @@ Proof.
     cbn [eval_expr] in Hv.
     destruct (eval_expr H E a) as [u|] eqn:Hu; [|discriminate Hv].
     destruct (eval_expr H E b) as [w|] eqn:Hw; [|discriminate Hv]. injection Hv as <-.
-    destruct (IH u eq_refl He Hh Hbt Hn0) as [Hext [Hh' [Hbt' [Hl [c [Hc Hg]]]]]].
-    split; [exact Hext|]. split; [exact Hh'|]. split; [exact Hbt'|]. split; [exact Hl|].
+    destruct (IH u eq_refl He Hh Hbt Hb0 Hn0) as [Hext [Hh' [Hbt' [Hb0' [Hl [c [Hc Hg]]]]]]].
+    split; [exact Hext|]. split; [exact Hh'|]. split; [exact Hbt'|]. split; [exact Hb0'|]. split; [exact Hl|].
     exists c. split; [apply aunion_l; exact Hc|exact Hg].
   - (* EChoice, right *)
     cbn [eval_expr] in Hv.
     destruct (eval_expr H E a) as [u|] eqn:Hu; [|discriminate Hv].
     destruct (eval_expr H E b) as [w|] eqn:Hw; [|discriminate Hv]. injection Hv as <-.
-    destruct (IH w eq_refl He Hh Hbt Hn0) as [Hext [Hh' [Hbt' [Hl [c [Hc Hg]]]]]].
-    split; [exact Hext|]. split; [exact Hh'|]. split; [exact Hbt'|]. split; [exact Hl|].
+    destruct (IH w eq_refl He Hh Hbt Hb0 Hn0) as [Hext [Hh' [Hbt' [Hb0' [Hl [c [Hc Hg]]]]]]].
+    split; [exact Hext|]. split; [exact Hh'|]. split; [exact Hbt'|]. split; [exact Hb0'|]. split; [exact Hl|].
     exists c. split; [apply aunion_r; exact Hc|exact Hg].
 Qed.
